@@ -119,14 +119,15 @@ class C19(Prop):
         if family == "ctor":
             return {"kind": "ctor", "rps": rng.choice([0, 0.0, -1, -0.5, -1e-300, 1e9, 1e9 + 1, 1.0000001e9, 2e9, 1e18, float("inf"), 1e-9, 0.1, 1, 3, 1e9 - 1, 999_999_999.5]), "gaps": [0, 0]}
         if family == "session":
-            ver = rng.choice(["v1", "v2c"])
+            ver = rng.choice(["v1", "v2c", "v2c"])
             sess = community_session(rng, ver)
+            sess["max_repetitions"] = rng.choice([1, 2])
             rps = rng.choice([1, 2, 3, 7, 10, 100, 1000, 0.5, 33.3])
             sess["limit_rps"] = rps
             sess["timeout_ns"] = 1_000_000_000
             delta = int(NS / float(rps))
             ops = []
-            rows = gen.mib(rng, n=3)
+            rows = gen.mib(rng, n=rng.choice([3, 8]))
             opid = 0
             for g in gaps_for(rng, delta, rng.randint(3, 12)):
                 if g:
@@ -135,7 +136,8 @@ class C19(Prop):
                 if rng.random() < 0.8:
                     ops.append({"id": opid, "s": 0, "op": "get", "oid": rows[0][0] if rows else "1.3.6"})
                 else:
-                    ops.append({"id": opid, "s": 0, "op": "walk", "method": "getnext", "oid": "1.3.6", "limit": 3})
+                    m = rng.choice(["getnext", "getbulk", "fetch"]) if ver != "v1" else rng.choice(["getnext", "fetch"])
+                    ops.append({"id": opid, "s": 0, "op": "walk", "method": m, "oid": rng.choice(["1.3.6", "1.3"]), "limit": rng.choice([3, 6, 10])})
             return {"kind": "session", "flavour": rng.choice(["sync", "async"]), "agent": {"mib": rows, "communities": [sess["community"]]}, "sessions": [sess], "ops": ops, "latency_ns": rng.choice([1001, 1_000_001]), "rps": rps}
         if family == "exhaustive-small":
             delta = rng.randint(1, 3)
